@@ -416,3 +416,28 @@ class Facts:
             "impls": sum(len(c.impls) for c in self.crates),
             "consts": sum(len(c.consts) for c in self.crates),
         }
+
+
+def closure_args(fn, t):
+    """closure def-ids passed (by value or by reference) as arguments of call terminator t"""
+    out = []
+    defs = fn.defs()
+    for a in t.get("args", []):
+        l = op_local(a)
+        seen = 0
+        while l is not None and seen < 4:
+            seen += 1
+            ds = [d for d in defs.get(l, []) if d[2] == "assign"]
+            if len(ds) != 1:
+                break
+            r = ds[0][3]["r"]
+            if r["k"] == "agg" and r.get("ak") == "closure":
+                out.append(r["closure"])
+                break
+            if r["k"] in ("use", "cast"):
+                l = op_local(r["o"])
+            elif r["k"] == "ref":
+                l = place_parts(r["p"])[0]
+            else:
+                break
+    return out
